@@ -243,6 +243,32 @@ def gen_join(rng, big=False):
     return s.text()
 
 
+def gen_join_shared(rng, big=False):
+    """C03 family: a ULT joiner in a pool served by two streams joins / frees several still-running targets of another
+    stream (single calls or the _many variants): it blocks on one stream and usually resumes on the other one, and
+    has to carry on with the right stream context; a busy bystander runs in the shared pool meanwhile"""
+    pools = [("fifo", "mpmc"), (rng.choice(["fifo", "fifo_wait", "randws"]), "mpmc")]
+    s = Scn(rng, 3, pools)
+    s.es(1, rng.choice(["basic", "default", "prio"]), [0])
+    s.es(2, rng.choice(["basic", "default", "prio"]), [0])
+    s.es(3, rng.choice(["basic", "default", "basic_wait"]), [1])
+    ts = [s.unit("U", "N", 1, [rng.choice(["Y", "Y", "W"]) for _ in range(rng.randint(8, 30))]) for _ in range(rng.randint(2, 4))]
+    ent = [str(t) for t in ts]
+    for _ in range(rng.randint(0, 1)):
+        ent.insert(rng.randrange(len(ent) + 1), "_")
+    how = rng.choice(["join_many", "free_many", "single"])
+    if how == "join_many":
+        jops = ["N" + ".".join(ent)] + ["F%d" % t for t in ts]
+    elif how == "free_many":
+        jops = ["E" + ".".join(ent)]
+    else:
+        jops = [rng.choice(["F%d" % t, "J%d F%d" % (t, t)]) for t in ts]
+    j = s.unit("U", "N", 0, " ".join(jops).split())
+    w = s.unit("U", "N", 0, [rng.choice(["W", "W", "Y"]) for _ in range(rng.randint(10, 40))])
+    s.main += ["C%d" % t for t in ts] + ["C%d" % w, "C%d" % j, "F%d" % j, "F%d" % w]
+    return s.text()
+
+
 def topo_with_parking(rng):
     nes, pools, es = topology(rng, max_es=2)
     pools = list(pools) + [("fifo", "mpmc")]          # last pool: parking pool, served by no stream
@@ -286,6 +312,11 @@ def gen_directed(rng, big=False):
         elif tpl == "resume_yield_to":
             b = s.unit("U", "N", rng.choice(sched_pools), ["W", "S", "W"])
             a = s.unit("U", "N", apool, ["r%d" % b, "W"])
+            if rng.random() < 0.35:
+                # the caller has asked for its own cancellation: the switch's callback terminates it; the bookkeeping
+                # for the resumed unit (its count is dropped) must be done all the same
+                # (it first waits for the target to be blocked: a yield made while polling would serve the cancel early)
+                s.units[a][3] = ["B%d" % b, "K%d" % a, "r%d" % b, "W"]
             s.main += ["C%d" % b, "C%d" % a]
             frees += [a, b]
         elif tpl == "resume_suspend_to":
